@@ -23,18 +23,20 @@ func (s *Server) processQueryLogsAndStats(dctx *dnsContext) (rc resultCode) {
 	host := aghnet.NormalizeDomain(q.Name)
 	processingTime := time.Since(dctx.startTime)
 
+	// Use the real address to find the client, since persistent clients are
+	// identified by their real addresses, but only record the anonymized one.
+	ids := []string{pctx.Addr.Addr().String()}
+	if dctx.clientID != "" {
+		// Use the ClientID first because it has a higher priority.  Filters
+		// have the same priority, see applyAdditionalFiltering.
+		ids = []string{dctx.clientID, ids[0]}
+	}
+
 	ip := pctx.Addr.Addr().AsSlice()
 	s.anonymizer.Load()(ip)
 	ipStr := net.IP(ip).String()
 
 	log.Debug("dnsforward: client ip for stats and querylog: %s", ipStr)
-
-	ids := []string{ipStr}
-	if dctx.clientID != "" {
-		// Use the ClientID first because it has a higher priority.  Filters
-		// have the same priority, see applyAdditionalFiltering.
-		ids = []string{dctx.clientID, ipStr}
-	}
 
 	qt, cl := q.Qtype, q.Qclass
 
